@@ -14,7 +14,7 @@ index) against the real lexers.
 What is proved, for ALL texts (lists of code points, any length, any characters incl. lone surrogates):
 
 * `C02_lexer_total_<d>`: the lexer run ends with a token list or with `LexError` at an index — it can neither
-  hang on a zero-length match (SLY has no guard: `index` would not advance) nor run out of the fuel the model
+  hang on a zero-length match (SLY's only guard is `_build`'s test of the master regex on the EMPTY text, which a rule that is empty only in context — `\\d*\\b` — passes: `index` would not advance) nor run out of the fuel the model
   uses.  Needs `allNonNull` of the rule list, which the kernel decides on the regenerated rules.
 * `C05_lexer_tiles`: the pieces of a finished run (skipped `ignore` characters, ignored rules' matches, tokens)
   concatenate to exactly the input text: no character is dropped or duplicated, for every rule list.
@@ -110,5 +110,241 @@ of the regenerated atom sets, here as a regression witness of the tie -/
 theorem C02_lexer_example_long_s :
     lex LexRe_mindsdb.cfg [383, 101, 116] = .ok [.tok "SET" false [383, 101, 116]] := by
   decide +kernel
+
+/-! ### [review] the run IS the step relation of the loop, in the full text
+
+`C02_lexer_full` says where the pieces lie (tiling, chain) and what their names are (`AllOK`), not that a piece is what the
+master regex matches there.  `Steps` is the relational form of `Lexer.tokenize` — one turn = skip one `ignore` character,
+or take the first rule (rule order) that matches AT THIS POSITION OF THE WHOLE TEXT (look-ahead and `\b` see all of it) —
+and `C02_lexer_run_spec` / `C02_lexer_err_run_spec` state that an `ok` / `err` run is exactly a `Steps` chain from the start
+to the end of the text / to the error index.  `Step` is a function of the position (`Step_functional`), so this pins every
+piece. -/
+
+-- [review]
+inductive Step (c : Cfg) : Pos → Seg → Pos → Prop
+  | skip (pre : List Nat) (ch : Nat) (t : List Nat) : c.ignore.mem ch = true →
+      Step c ⟨pre, ch :: t⟩ (.skip ch) ⟨ch :: pre, t⟩
+  | tok (p : Pos) (ch : Nat) (t : List Nat) (r : Rule) (q : Pos) : p.suf = ch :: t → c.ignore.mem ch = false →
+      firstMatch c.word c.rules p = some (r, q) → q.suf.length < p.suf.length →
+      Step c p (.tok r.name r.ignored (between p q)) q
+
+-- [review]
+inductive Steps (c : Cfg) : Pos → List Seg → Pos → Prop
+  | nil (p : Pos) : Steps c p [] p
+  | cons {p q e : Pos} {s : Seg} {segs : List Seg} : Step c p s q → Steps c q segs e → Steps c p (s :: segs) e
+
+-- [review] one turn is determined by the position
+theorem Step_functional {c : Cfg} {p q q' : Pos} {s s' : Seg} (h : Step c p s q) (h' : Step c p s' q') :
+    s = s' ∧ q = q' := by
+  cases h with
+  | skip pre ch t hi =>
+    cases h' with
+    | skip _ _ _ _ => exact ⟨rfl, rfl⟩
+    | tok _ ch' t' r' _ hs' hi' _ _ =>
+      simp only [List.cons.injEq] at hs'
+      obtain ⟨e1, _⟩ := hs'
+      subst e1
+      rw [hi] at hi'; cases hi'
+  | tok _ ch t r _ hs hi hf hl =>
+    cases h' with
+    | skip pre' ch' t' hi' =>
+      simp only [List.cons.injEq] at hs
+      obtain ⟨e1, _⟩ := hs
+      subst e1
+      rw [hi] at hi'; cases hi'
+    | tok _ ch' t' r' _ hs' hi' hf' hl' =>
+      rw [hf] at hf'
+      simp only [Option.some.injEq, Prod.mk.injEq] at hf'
+      obtain ⟨e1, e2⟩ := hf'
+      subst e1; subst e2
+      exact ⟨rfl, rfl⟩
+
+-- [review] a step chain consumes exactly the flattened pieces
+theorem Step_text {c : Cfg} {p q : Pos} {s : Seg} (h : Step c p s q) :
+    q.pre = s.text.reverse ++ p.pre ∧ p.suf = s.text ++ q.suf := by
+  cases h with
+  | skip pre ch t hi => simp [Seg.text]
+  | tok _ ch t r _ hs hi hf hl =>
+    obtain ⟨hb, hp⟩ := between_of_le (matchAt_le (firstMatch_spec hf).2)
+    exact ⟨by simpa [Seg.text] using hp, by simpa [Seg.text] using hb.symm⟩
+
+-- [review]
+theorem Steps_text {c : Cfg} {p e : Pos} {segs : List Seg} (h : Steps c p segs e) :
+    e.pre = (flat segs).reverse ++ p.pre ∧ p.suf = flat segs ++ e.suf := by
+  induction h with
+  | nil p => simp
+  | cons hs _ ih =>
+    obtain ⟨a1, a2⟩ := Step_text hs
+    obtain ⟨b1, b2⟩ := ih
+    constructor
+    · rw [b1, a1]; simp [flat]
+    · rw [a2, b2]; simp [flat]
+
+-- [review]
+theorem lexLoop_ok_steps (c : Cfg) : ∀ (n : Nat) (p : Pos) (acc segs : List Seg),
+    lexLoop c n p acc = .ok segs → ∃ rest e, segs = acc.reverse ++ rest ∧ Steps c p rest e ∧ e.suf = [] := by
+  intro n
+  induction n with
+  | zero => intro p acc segs h; simp [lexLoop] at h
+  | succ n ih =>
+    intro p acc segs h
+    obtain ⟨pre, suf⟩ := p
+    cases suf with
+    | nil =>
+      simp only [lexLoop, Out.ok.injEq] at h
+      exact ⟨[], ⟨pre, []⟩, by simp [h], Steps.nil _, rfl⟩
+    | cons ch t =>
+      simp only [lexLoop] at h
+      by_cases hi : c.ignore.mem ch = true
+      · simp only [hi, if_true] at h
+        obtain ⟨rest, e, h1, h2, h3⟩ := ih _ _ _ h
+        exact ⟨.skip ch :: rest, e, by simp [h1], Steps.cons (Step.skip pre ch t hi) h2, h3⟩
+      · simp only [hi, Bool.false_eq_true, if_false] at h
+        cases hf : firstMatch c.word c.rules ⟨pre, ch :: t⟩ with
+        | none => rw [hf] at h; simp at h
+        | some rq =>
+          obtain ⟨r, q⟩ := rq
+          rw [hf] at h
+          simp only at h
+          by_cases hl : q.suf.length < t.length + 1
+          · rw [if_pos (by simpa using hl)] at h
+            obtain ⟨rest, e, h1, h2, h3⟩ := ih _ _ _ h
+            refine ⟨_ :: rest, e, by simp [h1], Steps.cons (Step.tok ⟨pre, ch :: t⟩ ch t r q rfl (by simpa using hi) hf (by simpa using hl)) h2, h3⟩
+          · rw [if_neg (by simpa using hl)] at h; cases h
+
+-- [review]
+theorem lexLoop_err_steps (c : Cfg) : ∀ (n : Nat) (p : Pos) (acc : List Seg) (i : Nat) (segs : List Seg),
+    lexLoop c n p acc = .err i segs → ∃ rest e ch t, segs = acc.reverse ++ rest ∧ Steps c p rest e ∧
+      e.suf = ch :: t ∧ c.ignore.mem ch = false ∧ firstMatch c.word c.rules e = none ∧ i = e.index := by
+  intro n
+  induction n with
+  | zero => intro p acc i segs h; simp [lexLoop] at h
+  | succ n ih =>
+    intro p acc i segs h
+    obtain ⟨pre, suf⟩ := p
+    cases suf with
+    | nil => simp [lexLoop] at h
+    | cons ch t =>
+      simp only [lexLoop] at h
+      by_cases hi : c.ignore.mem ch = true
+      · simp only [hi, if_true] at h
+        obtain ⟨rest, e, ch', t', h1, h2, h3⟩ := ih _ _ _ _ h
+        exact ⟨.skip ch :: rest, e, ch', t', by simp [h1], Steps.cons (Step.skip pre ch t hi) h2, h3⟩
+      · simp only [hi, Bool.false_eq_true, if_false] at h
+        cases hf : firstMatch c.word c.rules ⟨pre, ch :: t⟩ with
+        | none =>
+          rw [hf] at h
+          simp only [Out.err.injEq] at h
+          obtain ⟨e1, e2⟩ := h
+          exact ⟨[], ⟨pre, ch :: t⟩, ch, t, by simp [e2], Steps.nil _, rfl, by simpa using hi, hf, e1.symm⟩
+        | some rq =>
+          obtain ⟨r, q⟩ := rq
+          rw [hf] at h
+          simp only at h
+          by_cases hl : q.suf.length < t.length + 1
+          · rw [if_pos (by simpa using hl)] at h
+            obtain ⟨rest, e, ch', t', h1, h2, h3⟩ := ih _ _ _ _ h
+            refine ⟨_ :: rest, e, ch', t', by simp [h1], Steps.cons (Step.tok ⟨pre, ch :: t⟩ ch t r q rfl (by simpa using hi) hf (by simpa using hl)) h2, h3⟩
+          · rw [if_neg (by simpa using hl)] at h; cases h
+
+/-- [review] **an `ok` run is the step chain from the start to the end of the text**: every piece is what the loop takes at
+its position of the full text — a skipped `ignore` character, or the match of the FIRST rule (rule order) that matches there
+(with that rule's name and ignore flag) — every configuration, every text -/
+theorem C02_lexer_run_spec (c : Cfg) (s : List Nat) (segs : List Seg) (h : lex c s = .ok segs) :
+    Steps c ⟨[], s⟩ segs ⟨s.reverse, []⟩ := by
+  obtain ⟨rest, e, h1, h2, h3⟩ := lexLoop_ok_steps c _ _ _ _ h
+  simp only [List.reverse_nil, List.nil_append] at h1
+  subst h1
+  obtain ⟨a, b⟩ := Steps_text h2
+  obtain ⟨epre, esuf⟩ := e
+  simp only at h3 a b
+  subst h3
+  simp only [List.append_nil] at a b
+  subst b
+  subst a
+  exact h2
+
+/-- [review] **the pieces before a `LexError` are the step chain from the start to the error index** — stronger than
+`C02_lexer_error_spec`: the tokens read before the error are exactly what the loop takes in the full text (not only a tiling
+of `s.take i`), and the chain cannot be continued at `i` -/
+theorem C02_lexer_err_run_spec (c : Cfg) (s : List Nat) (i : Nat) (segs : List Seg) (h : lex c s = .err i segs) :
+    Steps c ⟨[], s⟩ segs ⟨(s.take i).reverse, s.drop i⟩ ∧
+      ∃ ch t, s.drop i = ch :: t ∧ c.ignore.mem ch = false ∧
+        firstMatch c.word c.rules ⟨(s.take i).reverse, s.drop i⟩ = none := by
+  obtain ⟨rest, e, ch, t, h1, h2, h3, h4, h5, h6⟩ := lexLoop_err_steps c _ _ _ _ _ h
+  simp only [List.reverse_nil, List.nil_append] at h1
+  subst h1
+  obtain ⟨a, b⟩ := Steps_text h2
+  obtain ⟨epre, esuf⟩ := e
+  simp only [List.append_nil] at a b h3
+  have hi : i = (flat segs).length := by simp [h6, Pos.index, a]
+  have e1 : s.take i = flat segs := by rw [hi, b]; simp
+  have e2 : s.drop i = esuf := by rw [hi, b]; simp
+  rw [e1, e2, ← a]
+  exact ⟨h2, ch, t, h3, h4, h5⟩
+
+/-- [review] the step chain is unique: two runs over the same text from the same position agree piece by piece as far as
+both go (so `C02_lexer_run_spec` determines `segs`) -/
+theorem Steps_unique {c : Cfg} {p e e' : Pos} {segs segs' : List Seg} (h : Steps c p segs e) (h' : Steps c p segs' e')
+    (hl : segs.length = segs'.length) : segs = segs' ∧ e = e' := by
+  induction h generalizing segs' e' with
+  | nil p =>
+    cases h' with
+    | nil _ => exact ⟨rfl, rfl⟩
+    | cons _ _ => simp at hl
+  | cons hs _ ih =>
+    cases h' with
+    | nil _ => simp at hl
+    | cons hs' ht' =>
+      obtain ⟨a, b⟩ := Step_functional hs hs'
+      subst a; subst b
+      obtain ⟨x, y⟩ := ih ht' (by simpa using hl)
+      exact ⟨by rw [x], y⟩
+
+/-! ### [review] non-vacuity on realistic inputs -/
+
+-- [review] the text ``SELECT 'it''s' /* c⏎ */ FROM `t 1` -- x⏎WHERE a>=1.5`` (string with a doubled quote, block comment over
+-- two lines, quoted name with a blank, line comment, operators without separators) under the live mindsdb rules: the
+-- yielded tokens with their boundaries, as the real lexer gives them
+def reviewText : List Nat := [83, 69, 76, 69, 67, 84, 32, 39, 105, 116, 39, 39, 115, 39, 32, 47, 42, 32, 99, 10, 32, 42, 47, 32, 70,
+  82, 79, 77, 32, 96, 116, 32, 49, 96, 32, 45, 45, 32, 120, 10, 87, 72, 69, 82, 69, 32, 97, 62, 61, 49, 46, 53]
+
+-- [review]
+theorem review_multi_token_mindsdb :
+    (match lex LexRe_mindsdb.cfg reviewText with
+     | .ok segs => tokensFrom 0 segs
+     | _ => []) =
+    [("SELECT", 0, 6), ("QUOTE_STRING", 7, 14), ("FROM", 24, 28), ("ID", 29, 34), ("WHERE", 40, 45), ("ID", 46, 47),
+     ("GEQ", 47, 49), ("FLOAT", 49, 52)] := by
+  decide +kernel
+
+-- [review] the ignored pieces are in the run too (the comment as an ignored `tok`, `\n` as `newline` in mindsdb where
+-- it is not an `ignore` character, as `skip` in sqlite where it is)
+theorem review_ignored_pieces :
+    lex LexRe_mindsdb.cfg [97, 10, 98] = .ok [.tok "ID" false [97], .tok "newline" true [10], .tok "ID" false [98]] ∧
+    lex LexRe_sqlite.cfg [97, 10, 98] = .ok [.tok "ID" false [97], .skip 10, .tok "ID" false [98]] := by
+  decide +kernel
+
+-- [review] the hypotheses of `C02_lexer_err_run_spec` are met by real inputs: an unterminated string (mindsdb) and a NUL
+-- inside a word (mysql); the tokens before the error are kept
+theorem review_err_examples :
+    lex LexRe_mindsdb.cfg [115, 101, 108, 101, 99, 116, 32, 39, 97, 98, 99] =
+      .err 7 [.tok "SELECT" false [115, 101, 108, 101, 99, 116], .skip 32] ∧
+    lex LexRe_mysql.cfg [115, 101, 108, 101, 99, 116, 32, 97, 0, 98] =
+      .err 8 [.tok "SELECT" false [115, 101, 108, 101, 99, 116], .skip 32, .tok "ID" false [97]] := by
+  decide +kernel
+
+-- [review] the step relation is informative on the multi-token text: its first piece is the SELECT keyword, taken because
+-- `firstMatch` of the whole rule list says so at position 0 of the full text
+theorem review_steps_informative (segs : List Seg) (h : lex LexRe_mindsdb.cfg reviewText = .ok segs) :
+    ∃ s rest q, segs = s :: rest ∧ Step LexRe_mindsdb.cfg ⟨[], reviewText⟩ s q := by
+  have hs := C02_lexer_run_spec _ _ _ h
+  cases hs with
+  | cons h1 _ => exact ⟨_, _, _, rfl, h1⟩
+
+-- [review] `Re.m` against the one `\B` quirk of CPython < 3.14 (`\B` never matches in an EMPTY text, SRE_AT_NON_BOUNDARY
+-- returns 0 when beginning == end): the model says it matches.  Not reachable from `lex` (the loop returns before it
+-- calls the regex on an empty rest, and the empty text is `ok []`), and no live rule has `\B`; recorded as a model note.
+theorem review_nonboundary_on_empty_text : matchAt [] (.bound true) ⟨[], []⟩ = some ⟨[], []⟩ := by decide
 
 end MindsVerif.Props.C02Lex
